@@ -232,6 +232,19 @@ theorem expands_deterministic (S : Subst) (cals : Cals) (is o1 o2 : List Instruc
     (h1 : Expands E S cals is o1) (h2 : Expands E S cals is o2) : o1 = o2 :=
   Expands.deterministic E h1 o2 h2
 
+/-- **the relation determines what the algorithm returns**: whenever the expansion returns (no error, enough
+fuel), its result is THE list the big-step semantics relates to the instruction — an expansion `out` is returned
+as `some out`, and "no expansion" is returned exactly when the relation keeps the instruction (`out = [i]` by the
+`keep` rule).  Soundness + determinism. -/
+theorem expand_complete_with (S : Subst) (cals : Cals) (fuel : Nat) (prev : List κ) (i : Instruction)
+    (r : Option (List Instruction)) (out : List Instruction)
+    (h : expandInnerWith E S cals fuel prev i = .ok r) (hspec : Expands E S cals [i] out) :
+    r.getD [i] = out := by
+  have hs := expandInnerWith_sound E S cals fuel prev i r h
+  cases r with
+  | none => exact Expands.deterministic E (Expands.keep hs Expands.nil) _ hspec
+  | some o => exact Expands.deterministic E hs _ hspec
+
 /-- the calibrations of the known finding's witness -/
 def kfCals : Cals := { cals := [], mcals := [kfCal] }
 def kfMove (r : MemRef) : Instruction := .move { destination := r, source := .literalInteger 1 }
@@ -335,6 +348,22 @@ theorem declarations_hoisted (p : Prog) (fuel : Nat) (q : Prog) (h : expandCalib
   intro i hi
   rw [hb] at hi
   simpa using (List.mem_filter.mp hi).2
+
+/-- **hoisting, for every kind of definition**: every definition the expansion produced — DECLARE, DEFFRAME,
+DEFWAVEFORM, DEFGATE, DEFCIRCUIT, DEFCAL, DEFCAL MEASURE, `PRAGMA EXTERN` — is stored in the expanded program under
+its key (as itself, or as a later definition with the same key that replaced it), and nothing the source program
+stored is forgotten. -/
+theorem definitions_hoisted_all_kinds (p : Prog) (fuel : Nat) (q : Prog)
+    (h : expandCalibrations E p fuel = .ok q) :
+    (∀ k ∈ p.keys, k ∈ q.keys) ∧
+    ∃ flat, Expands E codeSubst p.cals p.instructions flat ∧
+      ∀ i ∈ flat, ∀ k, defKey i = some k → k ∈ q.keys := by
+  obtain ⟨flat, hf, rfl⟩ := program_expand_flat E p fuel q h
+  refine ⟨fun k hk => addMany_keys_mono _ _ k hk, flat, hf, fun i hi k hk => addMany_key_mem _ _ i k hi hk⟩
+
+/-- the keyed kinds are exactly the hoisted kinds -/
+theorem defKey_isSome_iff_definition (i : Instruction) : (defKey i).isSome = isDefinition i :=
+  defKey_isSome_iff i
 
 /-- **"keeps unmatched instructions in order"**: every subsequence of the source body made of instructions
 without a match is a subsequence of the expanded body (the source body of a `Program` holds no definitions:
